@@ -180,6 +180,31 @@ pub fn cases(mix: &str, n: usize, seed: u64) -> Vec<Case> {
             }
         }
     }
+    if want("badutf8") {
+        // a stray non-UTF-8 byte (and a lone multi-byte lead) at EVERY position of templates that have
+        // comments and layout at every slot the grammar has, including inside conditions
+        let bases: &[&str] = &[
+            "@* c *@ @use a::b; @* c *@\n@(a: u8, b: &str) @* c *@\n<p>@a @* c *@ text</p>\n",
+            "@(a: u8, b: u8)\n@if a == @* c *@ b {same} else @* c *@ if !@* c *@a @* c *@ && @* c *@ b {x} else @* c *@ {y}\n",
+            "@(a: bool)\n@if @* c *@ !@* c *@a @* c *@ {no}\n@if let @* c *@ Some(x) @* c *@ = @* c *@ o @* c *@ {@x}\n",
+            "@(xs: &[u8])\n@for @* c *@ x @* c *@ in @* c *@ xs @* c *@ {@x,}\n@for (a, b) in ps {@a}\n@for i in 0..n {@i}",
+            "@(o: Option<u8>)\n@match @* c *@ o @* c *@ {@* c *@ Some(x) @* c *@ => @* c *@ {@x} @* c *@ None => {-} @* c *@ }\n",
+            "@()\n@:base(a, @* c *@ \"s\", {@* c *@<b>x</b>} @* c *@ , {} @* c *@)\n",
+            "@()\n@a.b(\"s\", /* c */ [1, 2], {x}).c::<T>()!(y)[0] @(a + /* c */ \"s\") @\"lit\" @@ @{ @}\n",
+            "@<'a, 'b>(a: &'a str, b: &'b [u8], c: Vec<(A, B,)>, d: impl X, e: &dyn Y)\ntext\n",
+        ];
+        for base in bases {
+            let b = base.as_bytes();
+            for pos in 0..=b.len() {
+                for bad in [0xffu8, 0x80, 0xc3] {
+                    let mut s = b[..pos].to_vec();
+                    s.push(bad);
+                    s.extend_from_slice(&b[pos..]);
+                    out.push(Case { kind: "badutf8", src: s, intended: None, pair_of: None, decl: None });
+                }
+            }
+        }
+    }
     if want("text") {
         // C01: every ASCII code point at the start / middle / end of a run and alone, at every
         // nesting position, directly after the declaration and after other text; each case carries
